@@ -108,12 +108,38 @@ def run(ctx):
     if b:
         n_inst += order_before(ctx, prog, R1, b, 'SecondaryTransaction::flush_rowset', 'VersionManager::commit_changes',
                                'a:commit_inner:flush_rowset≺commit_changes') is not None
-        w = [c.bb for c in b.calls if (c.fn or '').endswith('DeleteVector::write_all')
-             and 'tokio::fs::File' in ' '.join(c.t.get('gargs', []))]
-        if ctx.anchor(R1, 'commit_inner:DeleteVector::write_all<File>', w):
-            follows(ctx, prog, R1, b, w, 'tokio::fs::File::sync_data', 'a:commit_inner:dv-write→sync_data≺commit_changes',
-                    what='DeleteVector::write_all on the DV file',
-                    until=start_sites(prog, b, 'VersionManager::commit_changes'))
+        def dv_writes(g):
+            return [c.bb for c in g.calls if (c.fn or '').endswith('DeleteVector::write_all')
+                    and 'tokio::fs::File' in ' '.join(c.t.get('gargs', []))]
+        w = dv_writes(b)
+        # the write may have been moved into a helper of the transaction (`Self::write_dv_file(..).await?`): then the helper must sync
+        # before it returns, and commit_inner must have completed the helper before commit_changes
+        helpers = []
+        if not w:
+            for c in b.calls:
+                if (c.fn or '').endswith('Future::poll'):
+                    continue
+                for cn in prog.callee_bodies(c):
+                    for g in prog.group(prog.bodies[cn].root):
+                        if g.name.startswith(SEC) and dv_writes(g):
+                            helpers.append((c, g))
+        if ctx.anchor(R1, 'commit_inner:DeleteVector::write_all<File>', w or helpers):
+            if w:
+                follows(ctx, prog, R1, b, w, 'tokio::fs::File::sync_data', 'a:commit_inner:dv-write→sync_data≺commit_changes',
+                        what='DeleteVector::write_all on the DV file',
+                        until=start_sites(prog, b, 'VersionManager::commit_changes'))
+            else:
+                ok = True
+                for c, g in helpers:
+                    ok &= bool(follows(ctx, prog, R1, g, dv_writes(g), 'tokio::fs::File::sync_data',
+                                       f'a:{g.root.rsplit("::", 1)[-1]}:dv-write→sync_data', what='DeleteVector::write_all on the DV file'))
+                    hname = g.root.rsplit('::', 2)[-2] + '::' + g.root.rsplit('::', 1)[-1]
+                    done = set(done_sites(prog, b, hname))
+                    commits = set(start_sites(prog, b, 'VersionManager::commit_changes'))
+                    pending = bool(b.reachable_from(b.succs[c.bb], avoid=done) & commits)
+                    ctx.ob(R1, 'a:commit_inner:dv-write→sync_data≺commit_changes', bool(done) and not pending,
+                           f'{b.name}: the helper {hname} (block {c.bb}) that writes and syncs the DV file completes at {sorted(done)} before '
+                           f'commit_changes at {sorted(commits)}: {bool(done) and not pending}', [site(b, c.bb)])
             n_inst += 1
     # a'. flush_rowset: mem.flush (reaches RowsetWriter::flush) ≺ DiskRowset::open ≺ push
     b = body(FLUSH_ROWSET)
@@ -180,17 +206,30 @@ def run(ctx):
         if bd.root == BOOTSTRAP.rsplit('::{closure', 1)[0]:
             ctx.sample({'rule': R1, 'instance': 'e:bootstrap re-adds row-sets already on disk (named exception)'})
             continue
-        # position of the construction in the outermost coroutine body of its group
-        top, pos = bd, bb
-        while top.parent and top.parent in prog.bodies and prog.bodies[top.parent].root == top.root \
-                and top.name != top.root + '::{closure#0}':
-            par = prog.bodies[top.parent]
-            ps = [b_ for b_, ch in par.closure_sites() if ch == top.name]
-            if not ps:
-                break
-            top, pos = par, ps[0]
-        fl = set(done_sites(prog, top, 'RowsetWriter::flush')) | set(done_sites(prog, top, 'SecondaryTransaction::flush_rowset'))
-        ok = bool(fl) and top.dominated_by_any(fl, pos)
+        def lifted(bd_, bb_):
+            """position of a block of a nested closure in the outermost coroutine body of its group"""
+            top, pos = bd_, bb_
+            while top.parent and top.parent in prog.bodies and prog.bodies[top.parent].root == top.root \
+                    and top.name != top.root + '::{closure#0}':
+                par = prog.bodies[top.parent]
+                ps = [b_ for b_, ch in par.closure_sites() if ch == top.name]
+                if not ps:
+                    break
+                top, pos = par, ps[0]
+            return top, pos
+
+        def flushed_before(bd_, bb_, depth=2):
+            top, pos = lifted(bd_, bb_)
+            fl = set(done_sites(prog, top, 'RowsetWriter::flush')) | set(done_sites(prog, top, 'SecondaryTransaction::flush_rowset'))
+            if fl and top.dominated_by_any(fl, pos):
+                return True
+            if fl or depth == 0:
+                return False
+            # a helper that only builds the records (no flush of its own): every call of it must come after the flush
+            cs = [c for c in prog.callers.get(bd_.root, []) if c.body.root != bd_.root]
+            return bool(cs) and all(flushed_before(c.body, c.bb, depth - 1) for c in cs)
+        top, pos = lifted(bd, bb)
+        ok = flushed_before(bd, bb)
         ctx.ob(R1, f'e:{bd.root}:flush≺AddRowSet', ok,
                f'EpochOp::AddRowSet is constructed in {bd.name} (block {bb}) '
                + ('after' if ok else 'WITHOUT a dominating') + ' RowsetWriter::flush / flush_rowset', [site(top, pos)])
@@ -297,29 +336,44 @@ def run(ctx):
         # poll sites of write_all are not in file_write_sites (only the call creating the future)
         ctx.ob(R3, 'Manifest::append·one-write', len(w) == 1, f'{len(w)} write_all call(s) on the manifest file',
                [site(b, x) for x in w])
-        ends = []
-        for c in b.calls:
-            if (c.fn or '').endswith('serde_json::to_writer') and len(c.args) > 1:
-                if flows_from(b, c.args[1]['pl']['l'], lambda k, p, bb: k == 'assign' and p.get('rv') == 'use'
-                              and p['op']['k'] == 'const' and is_promoted_variant(b, p['op'].get('v', ''), 'End')):
-                    ends.append(c.bb)
+        def bracket_sites(g, variant):
+            out = []
+            for c in g.calls:
+                if (c.fn or '').endswith('serde_json::to_writer') and len(c.args) > 1 and c.args[1]['k'] != 'const':
+                    if flows_from(g, c.args[1]['pl']['l'], lambda k, p, bb: k == 'assign' and p.get('rv') == 'use'
+                                  and p['op']['k'] == 'const' and is_promoted_variant(g, p['op'].get('v', ''), variant)):
+                        out.append(c.bb)
+            return out
+        # the bracket is serialised in append itself or in a helper it calls (`Self::encode_transaction(entries)?`)
+        enc, via = b, None
+        if not bracket_sites(b, 'End'):
+            for c in b.calls:
+                for cn in prog.callee_bodies(c):
+                    g = prog.bodies[cn]
+                    if g.name.startswith(SEC) and bracket_sites(g, 'End'):
+                        enc, via = g, c
+        ends, begins = bracket_sites(enc, 'End'), bracket_sites(enc, 'Begin')
         if ctx.anchor(R3, 'Manifest::append:serialize(End)', ends) and w:
-            ctx.ob(R3, 'Manifest::append·End≺write', all(b.dominated_by_any(set(ends), x) for x in w),
-                   'the single write must be dominated by the serialisation of ManifestOperation::End',
-                   [site(b, x) for x in ends + w])
+            if via is None:
+                ok_dom = all(b.dominated_by_any(set(ends), x) for x in w)
+            else:   # End dominates every successful return of the encoder, and the encoder call dominates the write
+                rets = [r for r in enc.return_blocks() if r not in enc.error_exit_blocks()]
+                ok_dom = all(enc.dominated_by_any(set(ends), r) or not (enc.reachable_from([0], avoid=set(ends) | enc.error_exit_blocks()) & {r}) for r in rets) \
+                    and all(b.dominates(via.bb, x) for x in w)
+            ctx.ob(R3, 'Manifest::append·End≺write', ok_dom,
+                   'the single write must be dominated by the serialisation of ManifestOperation::End'
+                   + (f' (in {enc.name.rsplit("::", 1)[-1]}, called at block {via.bb})' if via is not None else ''),
+                   [site(enc, x) for x in ends] + [site(b, x) for x in w])
         # one transaction = one bracket = one write: neither the write nor the serialisation of Begin / End is repeated (after seed C04-f:
         # a changeset written in batches, each with a bracket of its own, is no longer atomic for replay)
-        begins = []
-        for c in b.calls:
-            if (c.fn or '').endswith('serde_json::to_writer') and len(c.args) > 1:
-                if flows_from(b, c.args[1]['pl']['l'], lambda k, p, bb: k == 'assign' and p.get('rv') == 'use'
-                              and p['op']['k'] == 'const' and is_promoted_variant(b, p['op'].get('v', ''), 'Begin')):
-                    begins.append(c.bb)
-        looped = [x for x in w + ends + begins if b.reachable_from(b.succs[x]) & {x}]
+        looped = [x for x in ends + begins if enc.reachable_from(enc.succs[x]) & {x}] + [x for x in w if b.reachable_from(b.succs[x]) & {x}]
+        if via is not None and b.reachable_from(b.succs[via.bb]) & {via.bb}:
+            looped.append(via.bb)
         if ctx.anchor(R3, 'Manifest::append:serialize(Begin)', begins):
             ctx.ob(R3, 'Manifest::append·one-bracket-per-call', not looped and len(begins) == 1 and len(ends) == 1,
-                   f'Begin serialised at {begins}, End at {ends}, write at {w}; of these inside a loop: {looped}',
-                   [site(b, x) for x in (looped or begins + ends)],
+                   f'Begin serialised at {begins}, End at {ends}' + (f' (in {enc.name.rsplit("::", 1)[-1]})' if via is not None else '')
+                   + f', write at {w}; of these inside a loop: {looped}',
+                   [site(enc, x) for x in (begins + ends)],
                    what='Manifest::append writes one changeset as several Begin..End brackets (or in several writes): replay commits every closed '
                         'bracket, so a crash in the middle of the append leaves a statement with many entries (a large INSERT, DELETE, DROP TABLE) '
                         'half applied after recovery')
